@@ -2,6 +2,7 @@ package vc
 
 import (
 	"go/token"
+	"go/types"
 	"sort"
 
 	"golang.org/x/tools/go/ssa"
@@ -51,4 +52,31 @@ func (f *FnVC) sourceOrdinal(ac *spec.AtCall, pos token.Pos) int {
 		f.acOrd[ac] = m
 	}
 	return m[pos]
+}
+
+// noteSiteRaw: at-call hooks for pseudo call sites (e.g. "mapupdate"); only assert actions, no ordinals.
+func (f *FnVC) noteSiteRaw(st *State, display string, args []Val, pos token.Pos) {
+	for _, ac := range f.Ct.AtCalls {
+		if ac.Pattern != display {
+			continue
+		}
+		f.acMatched[ac]++
+		if ac.Label != "" {
+			f.sites[ac.Label] = &callSite{label: ac.Label, reach: st.Reach, args: args}
+		}
+		if ac.Action != "assert" {
+			continue
+		}
+		env := f.siteEnv(st, args, nil)
+		v, err := f.evalSpec(env, ac.Clause.Expr, types.Typ[types.Bool])
+		if err != nil {
+			f.E.specError(ac.Clause, err)
+			continue
+		}
+		lbl := ac.Clause.Label
+		if lbl == "" {
+			lbl = ac.Pattern
+		}
+		f.oblige("at-call", lbl, st, v.T, pos, "at-call "+ac.Pattern+": "+ac.Clause.Text)
+	}
 }
